@@ -81,7 +81,7 @@ var punctTokens = []string{
 }
 
 var valueTokens = []string{
-	"/a", "/a/{id}", "/{x}/{y}", "\"/q p\"", "@t", "@user", "[@t]", "any", "empty", "regex", "jsight", "\"regex\"", "\"any\"",
+	"/a", "/a/{id}", "/{x}/{y}", "\"/q p\"", "@t", "@user", "[@t]", "\"[@t]\"", "\"[@user]\"", "\"@t\"", "\"empty\"", "any", "empty", "regex", "jsight", "\"regex\"", "\"any\"",
 	"/ab+c/", "/[a-z]/", "{}", "{\"a\":1}", "{\"id\": 1 // {min: 1}\n}", "[1,2]", "[\"a\", \"b\"]", "[@t]", "@t | @u", "1", "\"s\"", "true", "null",
 	"htmlFormEncoded", "noFormat", "json-rpc-2.0", "\"x y\"", "\"a\\\"b\"", "\"a\\\\\"", "file.jst", "\"\"", "text", "some text here",
 	"{\n  \"k\": @t\n}", "{ // {allOf: \"@t\"}\n}", "[ // {minItems: 1}\n 1\n]", "@", "@@", "@-", "name", "tag1", "opId",
@@ -146,7 +146,7 @@ func mutate(p *PRNG, data []byte, k int) []byte {
 			continue
 		}
 		pos := p.Intn(len(out) + 1)
-		switch p.Intn(9) {
+		switch p.Intn(10) {
 		case 0: // insert token
 			t := []byte(randToken(p))
 			out = append(out[:pos], append(t, out[pos:]...)...)
@@ -198,6 +198,12 @@ func mutate(p *PRNG, data []byte, k int) []byte {
 				i, j := p.Intn(len(ls)), p.Intn(len(ls))
 				ls[i], ls[j] = ls[j], ls[i]
 				out = bytes.Join(ls, nil)
+			}
+		case 9: // blanks before a line end
+			j := bytes.IndexByte(out[pos:], '\n')
+			if j >= 0 {
+				t := []byte(Pick(p, []string{" ", "\t", "  ", " \t "}))
+				out = append(out[:pos+j], append(t, out[pos+j:]...)...)
 			}
 		case 8: // insert keyword at line start
 			i := bytes.LastIndexByte(out[:pos], '\n') + 1
